@@ -10,6 +10,7 @@ CONSTANTS
   MaxConds = 2
   UseOpts = TRUE
   UseBlocks = TRUE
+  Axes <- MC_AxisK
   MaxObs = 2
   MaxRagged = 0
   MaxRaggedInt = 0
